@@ -35,7 +35,8 @@ UnOps  == <<"!", "length", "count">>
 
 IsNum(a) == a.t = "int" \/ a.t = "flt"
 \* a float the harness could not express as a small dyadic rational has no q field: unmodelled
-Modelled(a) == a.t # "flt" \/ "q" \in DOMAIN a
+\* (likewise an integer beyond the small integers TLC can hold has no v field)
+Modelled(a) == (a.t # "flt" \/ "q" \in DOMAIN a) /\ (a.t # "int" \/ "v" \in DOMAIN a)
 NumQ(a) == IF a.t = "int" THEN <<a.v, 0>> ELSE a.q
 Sign(x) == IF x < 0 THEN -1 ELSE IF x > 0 THEN 1 ELSE 0
 \* numbers compare by value across int and float: n1/2^k1 ? n2/2^k2  <=>  n1*2^k2 ? n2*2^k1
